@@ -102,8 +102,124 @@ def _slice_of_pattern(e, pat):
     return None
 
 
+def _lk_model(cx, port):
+    """like_to_regex evaluated on every abstract LIKE pattern of at most four characters over {%, _, a literal character}: the result,
+    as a sequence of regex constants and escaped / unescaped pattern characters, must be ^ + (escape(c) | . | .*)* + $.
+    Returns None when the abstract interpreter gives up, else {category: message} with categories taint / map / anchor / part
+    (empty = all patterns translated correctly)."""
+    cache = cx.__dict__.setdefault('_lk_model_cache', {})
+    if port in cache:
+        return cache[port]
+    import itertools
+    from .. import absexec as AX
+    p, fd = _fd(cx, port)
+    mod = cx.engine_mod(port)
+
+    class AbsStr(list):
+        pass
+
+    def on_call(ex, node, fname, recv, args):
+        short = node.func.attr if isinstance(node.func, ast.Attribute) else fname
+        if (fname in ESCAPERS[port] or short in ('escape', 'regexp_escape', 'escapeRegExp')) and len(args) == 1 and isinstance(args[0], (list, AX.Abs, str)):
+            seg = args[0]
+            if isinstance(seg, AX.Abs) and seg.kind == 'Chr':
+                seg = [seg]
+            if isinstance(seg, str):
+                seg = list(seg)
+            if isinstance(seg, list):
+                return AX.Abs('Esc', seg=tuple(seg))
+        if isinstance(recv, list) and short == 'charAt' and len(args) == 1 and isinstance(args[0], int):
+            return recv[args[0]] if 0 <= args[0] < len(recv) else ''
+        if isinstance(recv, list) and short in ('substring', 'slice') and 1 <= len(args) <= 2 and all(isinstance(a, int) for a in args):
+            a = max(0, min(args[0], len(recv)))
+            b = max(0, min(args[1], len(recv))) if len(args) == 2 else len(recv)
+            if short == 'substring' and a > b:
+                a, b = b, a
+            return list(recv[a:b])
+        return AX.NOT_HANDLED
+
+    def flat(v):
+        if isinstance(v, AX.Abs) and v.kind == 'Text':
+            out = []
+            for x in v.props['parts']:
+                out.extend(flat(x))
+            return out
+        if isinstance(v, AX.Abs) and v.kind == 'Joined':
+            out = []
+            for i, x in enumerate(v.props['items']):
+                if i and v.props['sep'] != '':
+                    out.append(v.props['sep'])
+                out.extend(flat(x))
+            return out
+        if isinstance(v, AX.Abs) and v.kind == 'Esc':
+            return [('esc', c) for c in v.props['seg']]
+        if isinstance(v, str):
+            return list(v)
+        if isinstance(v, list):
+            out = []
+            for x in v:
+                out.extend([('raw', x)] if not isinstance(x, list) else flat(x))
+            return out
+        return [('raw', v)]
+    bad = {}
+    n = 0
+    try:
+        for ln in range(0, 5):
+            for shape in itertools.product('%_L', repeat=ln):
+                pat = AbsStr()
+                for k, c in enumerate(shape):
+                    pat.append(c if c != 'L' else AX.Abs('Chr', id='c%d' % k, distinct=True))
+                ex = AX.Explorer(p, mod, on_call=on_call, max_choices=1, follow=False)
+                runs, cut = ex.explore(fd, [pat])
+                if len(runs) != 1 or runs[0].outcome[0] != 'return':
+                    cache[port] = None
+                    return None
+                n += 1
+                got = flat(runs[0].outcome[1])
+                want = ['^']
+                for c in pat:
+                    want.extend(['.'] if c == '_' else (['.', '*'] if c == '%' else [('esc', c)]))
+                want.append('$')
+                same = len(got) == len(want) and all((a == b) if isinstance(a, str) and isinstance(b, str) else (isinstance(a, tuple) and isinstance(b, tuple) and a[0] == b[0] and a[1] is b[1]) for a, b in zip(got, want))
+                if same:
+                    continue
+                shown = ''.join(shape).replace('L', 'x')
+
+                def show(seq):
+                    return ''.join(x if isinstance(x, str) else ('\\' + ('x' if isinstance(x[1], AX.Abs) else str(x[1])) if x[0] == 'esc' else '<unescaped ' + ('x' if isinstance(x[1], AX.Abs) else repr(x[1])) + '>') for x in seq)
+                msg = 'LIKE pattern `{}` (x = any other character) becomes `{}` instead of `{}`'.format(shown, show(got), show(want))
+                if any(isinstance(x, tuple) and x[0] == 'raw' for x in got):
+                    bad.setdefault('taint', msg)
+                elif got[:1] != ['^'] or got[-1:] != ['$']:
+                    bad.setdefault('anchor', msg)
+                else:
+                    lits_g = [x[1] for x in got if isinstance(x, tuple)]
+                    lits_w = [x[1] for x in want if isinstance(x, tuple)]
+                    if len(lits_g) != len(lits_w) or any(a is not b for a, b in zip(lits_g, lits_w)):
+                        bad.setdefault('part', msg)
+                    else:
+                        bad.setdefault('map', msg)
+    except (Undecided, AX.Cut, AX._NeedChoice, IndexError, KeyError, TypeError):
+        cache[port] = None
+        return None
+    bad['__n__'] = n
+    cache[port] = bad
+    return bad
+
+
+def _lk_model_report(cx, rep, port, category, key, good):
+    m = _lk_model(cx, port)
+    if m is None:
+        return False
+    p, fd = _fd(cx, port)
+    rep.decide(category not in m, key, fd, '{} ({} abstract patterns of up to 4 characters evaluated)'.format(good, m['__n__']), m.get(category, ''))
+    return True
+
+
 def rule_lk_taint(cx, rep, port):
     """every piece of the pattern appended to the result passes through the escape function; only constants bypass it"""
+    if _lk_model_report(cx, rep, port, 'taint', 'pattern text escaped', 'every character of the pattern other than _ and % reaches the result through the escape function'):
+        return
     p, fd = _fd(cx, port)
     steps = _escrepl_family(fd, port)
     if steps is not None:
@@ -153,6 +269,8 @@ def _concat_pieces(e):
 
 def rule_lk_map(cx, rep, port):
     """'_' -> '.', '%' -> '.*' and nothing else is special"""
+    if _lk_model_report(cx, rep, port, 'map', 'wildcard translation', "'_' -> '.', '%' -> '.*', every other character stands for itself"):
+        return
     p, fd = _fd(cx, port)
     if _escrepl_family(fd, port) is not None:
         rep.holds('wildcard translation', fd, 'escape-then-replace family: judged by LK-TAINT')
@@ -266,15 +384,16 @@ def _appended_const(body, acc):
 
 def rule_lk_anchor(cx, rep, port):
     p, fd = _fd(cx, port)
-    acc, ret = _accum_var(fd)
-    pieces = _concat_pieces(ret.value)
-    consts = [x.value if isinstance(x, ast.Constant) else None for x in pieces]
-    if len(pieces) == 3 and consts[0] == '^' and consts[2] == '$' and is_name(pieces[1], acc):
-        rep.holds('anchors', ret, 'result is ^...$')
-    elif consts and consts[0] != '^' or consts and consts[-1] != '$':
-        rep.violated('anchors', ret, 'the translated pattern `{}` is not anchored at both ends: like() would accept a partial match'.format(node_text(ret.value)))
-    else:
-        rep.undecided('anchors', ret, 'return shape not recognised')
+    if not _lk_model_report(cx, rep, port, 'anchor', 'anchors', 'result is ^...$'):
+        acc, ret = _accum_var(fd)
+        pieces = _concat_pieces(ret.value)
+        consts = [x.value if isinstance(x, ast.Constant) else None for x in pieces]
+        if len(pieces) == 3 and consts[0] == '^' and consts[2] == '$' and is_name(pieces[1], acc):
+            rep.holds('anchors', ret, 'result is ^...$')
+        elif consts and consts[0] != '^' or consts and consts[-1] != '$':
+            rep.violated('anchors', ret, 'the translated pattern `{}` is not anchored at both ends: like() would accept a partial match'.format(node_text(ret.value)))
+        else:
+            rep.undecided('anchors', ret, 'return shape not recognised')
     # use site: match / fullmatch / test, compiled without flags
     mod = cx.engine_mod(port)
     users = []
@@ -319,6 +438,8 @@ def rule_lk_anchor(cx, rep, port):
 
 def rule_lk_part(cx, rep, port):
     """scan-and-flush: index +1 every iteration unconditionally; on a wildcard flush [p,i) and set p = i+1; final flush [p,end)"""
+    if _lk_model_report(cx, rep, port, 'part', 'pattern partition', 'every character of the pattern contributes exactly once, in order'):
+        return
     p, fd = _fd(cx, port)
     if _escrepl_family(fd, port) is not None:
         rep.holds('scan schema', fd, 'escape-then-replace family: no scan loop; judged by LK-TAINT')
